@@ -336,6 +336,11 @@ def _cond_excludes(tst: ast.AST, pol: bool, names: Set[str], argtxt: str) -> Set
                     out.add("zero")
                 if isinstance(op, ast.LtE) and not p and r.value >= 0:
                     out |= {"neg", "zero"}
+                # bounded above / below by a finite constant: that infinity is excluded
+                if (isinstance(op, (ast.Lt, ast.LtE)) and p) or (isinstance(op, (ast.Gt, ast.GtE)) and not p):
+                    out.add("posinf")
+                if (isinstance(op, (ast.Gt, ast.GtE)) and p) or (isinstance(op, (ast.Lt, ast.LtE)) and not p):
+                    out.add("neginf")
             # self-comparison: v != v is the NaN test
             if norm(l) == norm(r):
                 if (isinstance(op, ast.NotEq) and not p) or (isinstance(op, ast.Eq) and p):
@@ -515,9 +520,18 @@ def _judge(label: str, n: ast.AST, arg: ast.AST, f: Func, env: KindEnv, t, class
     if label == "struct.pack":
         fmt = n.args[0]
         if isinstance(fmt, ast.Constant) and fmt.value in ("<f", ">f", "=f", "!f") and k in (NUM, RAW, UNK, FINITE):
-            kk = env.kind(arg.args[0]) if isinstance(arg, ast.Call) and norm(arg.func) == "float" and arg.args else k
+            inner = arg.args[0] if isinstance(arg, ast.Call) and norm(arg.func) == "float" and arg.args else None
+            kk = env.kind(inner) if inner is not None else k
+            if kk == UNK and inner is not None:
+                a_txt = norm(inner)
+                if any(pol and isinstance(t, ast.Call) and norm(t.func) == "isinstance" and len(t.args) == 2 and norm(t.args[0]) == a_txt and "float" in norm(t.args[1]) for t, pol in guards_of(n, f.node)):
+                    kk = NUM  # narrowed to "a host number" by the site itself: any Number, huge ones included
+            if isinstance(arg, ast.Call) and norm(arg.func) == "math.copysign" and arg.args and norm(arg.args[0]).replace(" ", "") in ("math.inf", "float('inf')"):
+                return None  # an infinity of either sign packs as itself
             if kk in (NUM, RAW):
-                if set(classes) <= covered:
+                # the operand is a float() result: the only failure left is the range (struct.error needs a non-float)
+                needed = {"OverflowError"} if inner is not None else set(classes)
+                if needed <= covered:
                     return None
                 return "the value is a script number that can exceed the float32 range"
         return None
@@ -533,7 +547,13 @@ def _judge(label: str, n: ast.AST, arg: ast.AST, f: Func, env: KindEnv, t, class
     if k == FINITE and label in ("int", "round", "math.floor", "math.ceil", "math.trunc", "math.sin", "math.cos", "math.tan"):
         return None
     if k == UNK:
-        return None
+        # a value of unknown origin that the site itself has just narrowed to "a host number"
+        # (isinstance(v, (int, float)) / isinstance(v, float)) is any Number: NaN and the infinities included
+        a_txt = norm(arg)
+        narrowed = any(pol and isinstance(t, ast.Call) and norm(t.func) == "isinstance" and len(t.args) == 2 and norm(t.args[0]) == a_txt and "float" in norm(t.args[1]) for t, pol in guards_of(n, f.node))
+        if not narrowed:
+            return None
+        k = NUM
     bad: List[str] = []
     if label in ("int", "round", "math.floor", "math.ceil", "math.trunc"):
         if "nan" not in ex:
